@@ -25,7 +25,7 @@ func init() { register(c15{}) }
 
 func (c15) ID() string { return "C15" }
 func (c15) Rule() string {
-	return "the real gts binary (--no-cache) is run on generated GenBank records (20..60 residues that are pairwise distinct complement-invariant printable ids, 0..7 uniquely labelled features over ranges/points/joins/complements, linear and circular) and on the phiX174 corpus record, with locators built from points, ranges, complement(range), selectors by key and /label regexp matching 0..k features, each optionally with a modifier that stays in range; commands delete [-e], insert [-e] (literal and file guests), infix [-e], split, rotate, extract [-v], each also with -F fasta. stdout is parsed back with seqio. The located regions are obtained from the same locator through the library (locator semantics are C08's); the expected output is computed by the model from the regions: delete -> residues minus the union, one record, features = image under the deletion of the maximal runs; insert/infix -> one guest copy per located region at its Head() in input coordinates, features = image under the insertions; split -> pieces concatenate to the input (circular: to the input rotated to a cut), cut set = one acceptable position per region (Head, or the lower coordinate for reverse-strand regions), fragments of each feature together cover its residues; rotate -> first located Head at index 0, features cyclically shifted; extract -> one record per distinct region shorter than the record (a single region as long as the record is don't-care), residues = model extraction, -v -> the maximal unlocated stretches (the whole record when nothing is located). non-trivial: >=2 located regions, or regions that overlap/nest/abut/are unsorted; distinct: (command line, input record)."
+	return "the real gts binary (--no-cache) is run on generated GenBank records (20..60 residues that are pairwise distinct complement-invariant printable ids, 0..7 uniquely labelled features over ranges/points/joins/complements, linear and circular) and on the phiX174 corpus record, with locators built from points, ranges, complement(range), selectors by key and /label regexp matching 0..k features, each optionally with a modifier that stays in range (for gts rotate and single-cut gts split on circular records also positions before residue 1 or after the last residue, which wrap); commands delete [-e], insert [-e] (literal and file guests), infix [-e], split, rotate, extract [-v], each also with -F fasta. stdout is parsed back with seqio. The located regions are obtained from the same locator through the library (locator semantics are C08's); the expected output is computed by the model from the regions: delete -> residues minus the union, one record, features = image under the deletion of the maximal runs; insert/infix -> one guest copy per located region at its Head() in input coordinates, features = image under the insertions; split -> pieces concatenate to the input (circular: to the input rotated to a cut), cut set = one acceptable position per region (Head, or the lower coordinate for reverse-strand regions), fragments of each feature together cover its residues; rotate -> first located Head at index 0, features cyclically shifted; extract -> one record per distinct region shorter than the record (a single region as long as the record is don't-care), residues = model extraction, -v -> the maximal unlocated stretches (the whole record when nothing is located). non-trivial: >=2 located regions, or regions that overlap/nest/abut/are unsorted; distinct: (command line, input record)."
 }
 func (c15) Assumptions() []string {
 	return []string{"seqio's scanner as the reader of gts output (itself the subject of C01/C07/C16/C17)", "the library's AsLocator for which regions a locator denotes (subject of C08)", "Go toolchain; harness models"}
@@ -35,7 +35,7 @@ func (c15) RequiredBuckets(tier string) []string {
 	for _, k := range []string{"delete", "delete -e", "insert", "insert -e", "infix", "split", "rotate", "extract", "extract -v"} {
 		out = append(out, "cmd:"+k)
 	}
-	out = append(out, "sites:0", "sites:1", "sites:2+", "sites:overlapping", "sites:duplicate-head", "sites:reverse-strand", "sites:unsorted", "topology:circular", "topology:linear", "format:fasta", "format:genbank", "input:corpus", "input:generated", "locator:modifier")
+	out = append(out, "sites:0", "sites:1", "sites:2+", "sites:overlapping", "sites:duplicate-head", "sites:reverse-strand", "sites:unsorted", "topology:circular", "topology:linear", "format:fasta", "format:genbank", "input:corpus", "input:generated", "locator:modifier", "sites:beyond-the-origin-of-a-circular-record")
 	return out
 }
 func (c15) Findings() []fw.Finding {
@@ -66,6 +66,22 @@ func c15Generate(r *rand.Rand) (*c15rec, error) {
 			loc = gts.Range(r.Intn(L-1), L)
 		}
 		tab = append(tab, gts.Feature{Key: keys[r.Intn(len(keys))], Loc: loc, Props: gts.Props{{"label", fmt.Sprintf("h%d", i)}}})
+	}
+	if r.Intn(3) == 0 {
+		// features that touch residue 1 and/or the last residue.
+		a, b := 1+r.Intn(L/3), L-1-r.Intn(L/3)
+		var loc gts.Location
+		switch r.Intn(4) {
+		case 0:
+			loc = gts.Join(gts.Range(0, a), gts.Range(b, L))
+		case 1:
+			loc = gts.Join(gts.Range(0, a), gts.Range(b, L)).Complement()
+		case 2:
+			loc = gts.Range(0, a)
+		default:
+			loc = gts.Range(b, L)
+		}
+		tab = append(tab, gts.Feature{Key: keys[r.Intn(len(keys))], Loc: loc, Props: gts.Props{{"label", fmt.Sprintf("h%d", len(tab))}}})
 	}
 	// siblings that share the outer bounds (and key) of an existing multi-part
 	// feature but differ inside: distinct regions with equal Head and Tail.
@@ -396,10 +412,17 @@ func (x *c15run) one(rec *c15rec, cmd string, flags []string, locstr string, r *
 			}
 		}
 	}
-	if !inRange {
+	// On a circular record a position before residue 1 or after the last one
+	// is a position all the same: gts rotate, and gts split with one cut, only
+	// re-origin the record there.
+	wrapOK := rec.circ && len(regs) >= 1 && (name == "rotate" || (name == "split" && len(regs) == 1))
+	if !inRange && !wrapOK {
 		c.Skip("a located region leaves the record (modifier out of range)")
 		c.Count(enc, false)
 		return
+	}
+	if !inRange {
+		c.Bucket("sites:beyond-the-origin-of-a-circular-record")
 	}
 	runs := coveredRuns(segs, L)
 	tot := 0
@@ -658,8 +681,9 @@ func (x *c15run) one(rec *c15rec, cmd string, flags []string, locstr string, r *
 			}
 			okc := false
 			for _, p := range a {
-				acc[p%L] = true
-				if cuts[p%L] || (!rec.circ && (p == 0 || p == L)) {
+				p = ((p % L) + L) % L
+				acc[p] = true
+				if cuts[p] || (!rec.circ && (p == 0 || p == L)) {
 					okc = true
 				}
 			}
@@ -880,7 +904,7 @@ func c15Locator(r *rand.Rand, rec *c15rec) string {
 		x = "/label=nomatch"
 	}
 	if r.Intn(3) == 0 {
-		mods := []string{"^", "$", "^..$", "^+1..$-1", "^..^+2", "$-2..$", "^-1..$+1", "^+1", "$-1"}
+		mods := []string{"^", "$", "^..$", "^+1..$-1", "^..^+2", "$-2..$", "^-1..$+1", "^+1", "$-1", "^-5", "^-3..$", "$+4"}
 		return x + "@" + mods[r.Intn(len(mods))]
 	}
 	return x
@@ -961,6 +985,14 @@ func c15Drive(c *fw.Ctx, cmds []c15cmd, N int) {
 		}
 		cr := rand.New(rand.NewSource(caseSeed))
 		loc := c15Locator(cr, rec)
+		if (k.cmd == "rotate" || k.cmd == "split") && rec.circ && cr.Intn(4) == 0 {
+			// a position before residue 1 (or after the last) of a circular record.
+			if cr.Intn(2) == 0 {
+				loc = fmt.Sprintf("%d@^-%d", 1+cr.Intn(5), 6+cr.Intn(10))
+			} else {
+				loc = fmt.Sprintf("%d@$+%d", len(rec.bytes)-cr.Intn(5), 6+cr.Intn(10))
+			}
+		}
 		x.one(rec, k.cmd, k.flags, loc, cr)
 		if (it/len(cmds))%3 == 0 && !rec.corpus {
 			// the same command over a stream of 2..3 generated records.
